@@ -83,7 +83,16 @@ def run17(prop, tier, seed, work):
                 def leg():
                     c = rng.choice(LEGACY)
                     ty = rng.choice([s, "BadP", "", "Leaf"])
-                    return {"op": "legacy", "call": c, "ty": ty, "arg": rng.choice([0, 1, 2, 7, 300, 100000])}
+                    st = {"op": "legacy", "call": c, "ty": ty, "arg": rng.choice([0, 1, 2, 7, 300, 100000])}
+                    if c.startswith("SetMax") and rng.random() < 0.5:
+                        # the whole int range: the setters return their argument
+                        st["argstr"] = str(rng.choice([-1, -2 ** 31, 2 ** 31 - 1, 2 ** 31, 2 ** 32, 2 ** 32 + 5, -2 ** 32, 2 ** 40 + 3, 2 ** 63 - 1, -2 ** 63, 65536, 2 ** 16 - 1]))
+                    if c == "PretouchOpts" and rng.random() < 0.7:
+                        # any subset of the option constructors, any order, any values (also repeated ones)
+                        names = ["inline", "ilsize", "pretouch", rng.choice(["inline", "pretouch", "ilsize"])]
+                        rng.shuffle(names)
+                        st["opts"] = [[nm, rng.choice([-1, 0, 1, 2, 3, 5, 8, 64, 1000, 100000])] for nm in names[: rng.randrange(1, 5)]]
+                    return st
                 place = k % 4
                 if place in (0, 3):
                     steps.append(leg())
@@ -120,16 +129,46 @@ def run18(prop, tier, seed, work):
     res = suite.Result(prop, tier, seed)
     rng = random.Random(seed * 1009 + 3)
     quick = tier == "quick"
-    sizes = [0, 1, 9] if quick else [0, 1, 9, 28, 110]
+    sizes = [0, 1, 9, 256] if quick else [0, 1, 9, 28, 110, 255, 256, 300, 1000]
     batches = []
+
+    def lengthen(t, v, n, defs, depth=3):
+        """the same value with every string / binary inside it (elements, keys, values, nested) at least n bytes long"""
+        if t.get("ptr"):
+            return v if v.get("p") == 0 else {"p": 1, "v": lengthen(dict(t, ptr=False), v["v"], n, defs, depth)}
+        k = t["k"]
+        if k == "string":
+            return v + [97 + (i % 26) for i in range(max(0, n - len(v)))]
+        if k == "binary":
+            return v if v.get("nil") else {"nil": False, "b": v["b"] + [65 + (i % 26) for i in range(max(0, n - len(v["b"])))]}
+        if k in ("list", "set"):
+            return dict(v, items=[lengthen(t["e"], x, n, defs, depth) for x in v["items"]])
+        if k == "map":
+            return dict(v, ents=[[lengthen(t["kt"], a, n, defs, depth), lengthen(t["vt"], b, n, defs, depth)] for a, b in v["ents"]])
+        if k == "struct" and depth > 0:
+            byk = {f["key"]: f for f in defs[t["s"]]["fields"]}
+            return {"f": {key: lengthen(byk[key]["t"], x, n, defs, depth - 1) for key, x in v["f"].items()}, "unk": v["unk"]}
+        return v
 
     def scen_for(defs, structs, sizes, strlens):
         out = []
+        prev = None
         for s in structs:
-            for label, v in U.struct_variants(s, defs, sizes, strlens):
+            vs = list(U.struct_variants(s, defs, sizes, strlens))
+            # long strings / binaries in every position (elements, keys, map values), not only as fields
+            st = {"k": "struct", "ptr": False, "s": s}
+            for n in (33, 300):
+                vs.append(("long%d" % n, lengthen(st, vs[0][1], n, defs)))
+            for label, v in vs:
                 sid = "C18-%s-%s" % (s, label)
                 out.append({"sid": sid, "prop": prop, "vals": [v], "tags": [], "dkey": sid,
                             "steps": [{"op": "allocs", "ty": s, "v": 0, "calls": 100}]})
+            # two types used alternately, both long since warm
+            if prev is not None:
+                sid = "C18-alt-%s-%s" % (prev[0], s)
+                out.append({"sid": sid, "prop": prop, "vals": [prev[1], vs[0][1]], "tags": ["alternating"], "dkey": sid,
+                            "steps": [{"op": "allocs", "ty": prev[0], "v": 0, "calls": 100, "alt": {"ty": s, "v": 1}}]})
+            prev = (s, vs[0][1])
         return out
     uf = U.universe_fields()
     batches.append(Batch("fields", uf, scen_for(uf, sorted(uf.keys()), sizes, [0, 1, 300]), env={"GOMAXPROCS": "1"}))
